@@ -1,4 +1,4 @@
-"""X01 - behaviour outside the listed properties (./check extras): array_from_text_rc, FSArray.diff, pp_event,
+"""X01 - behaviour outside the listed properties (./check extras): array_from_text_rc, FSArray.diff, pp_event, normalize_slice, event reprs,
 specified as coded in spec/Extras.tla and bound by exact conformance of recorded calls.  Decides no property:
 a mismatch is reported as SPEC-DRIFT and the command exits 1 without a VIOLATION line."""
 import json
@@ -51,6 +51,22 @@ def _inputs(rng, tier):
         elif how == 4 and b and b[-1]:
             b[-1] = b[-1][:-1] + [[list(b[-1][-1][0][:1]), list(b[-1][-1][1])], [list(b[-1][-1][0][1:]), list(b[-1][-1][1])]]   # other run boundaries
         yield {"op": "fseq", "a": a, "b": b, "ign": k % 2, "wider": int(how == 5)}
+    # normslice: lengths 0..4, every int index and every slice with bounds in -6..6 / None, with and without a step
+    for ln in range(0, 5):
+        for i in range(-7, 8):
+            yield {"op": "normslice", "n": ln, "ix": ["int", i]}
+        for a in list(range(-6, 7)) + [None]:
+            for b in list(range(-6, 7)) + [None]:
+                for st in ((0, 1) if (ln + (a or 0) + (b or 0)) % 4 == 0 else (0,)):
+                    yield {"op": "normslice", "n": ln, "ix": ["slice", a or 0, int(a is None), b or 0, int(b is None), st]}
+    # evrepr: the event classes
+    for r in (0, 1, 24, 999, -1):
+        for c in (0, 80, 7):
+            for dy in (None, 0, 3, -2, 120):
+                yield {"op": "evrepr", "cls": "winch", "rows": r, "cols": c, "dy": dy}
+    yield {"op": "evrepr", "cls": "sigint"}
+    for keys in ([], ["a"], ["a", "<UP>", " "], ["<Ctrl-j>", "b", "KEY_F(1)", "\xe9"]):
+        yield {"op": "evrepr", "cls": "paste", "keys": keys}
     # ppevent: every name of both tables, and other text
     yield {"op": "ppevent", "names": "tables"}
     for t in ("abc", "", "\x1b", "<F99>", "KEY_NOPE", "<Ctrl-j>", "a", "é", "'", '"', "\\"):
@@ -99,6 +115,33 @@ def _execute(inp):
         except Exception as e:  # noqa
             ev["res"] = {"k": "exc", "t": enc.exc_name(e)}
         ev["fmt"] = enc.enc_text(simple_format(a))
+        return [ev]
+    if op == "normslice":
+        from curtsies.formatstring import normalize_slice
+        ix = inp["ix"]
+        index = ix[1] if ix[0] == "int" else slice(None if ix[2] else ix[1], None if ix[4] else ix[3], 2 if ix[5] else None)
+        try:
+            r = normalize_slice(inp["n"], index)
+            ev["res"] = {"k": "ok", "t": "" if (isinstance(r, slice) and r.step is None) else "NotAPlainSlice", "a": r.start, "b": r.stop}
+        except Exception as e:  # noqa
+            ev["res"] = {"k": "exc", "t": enc.exc_name(e), "a": 0, "b": 0}
+        return [ev]
+    if op == "evrepr":
+        cls = inp["cls"]
+        if cls == "winch":
+            x = events.WindowChangeEvent(inp["rows"], inp["cols"]) if inp["dy"] is None else events.WindowChangeEvent(inp["rows"], inp["cols"], inp["dy"])
+            ev["hasdy"], ev["dy"] = int(inp["dy"] is not None), inp["dy"] or 0
+            ev["wc"], ev["cdy"] = enc.enc_text("WindowChangeEvent"), enc.enc_text("cursor_dy")
+            ev["xywh"] = [x.x, x.y, x.width, x.height]
+        elif cls == "sigint":
+            x = events.SigIntEvent()
+            ev["lit"] = enc.enc_text("<SigInt Event>")
+        else:
+            x = events.PasteEvent()
+            x.events.extend(inp["keys"])
+            ev["keys"] = [enc.enc_text(k) for k in inp["keys"]]
+            ev["lit"] = enc.enc_text("<Paste Event with data: ")
+        ev["repr"], ev["name"] = enc.enc_text(repr(x)), enc.enc_text(x.name)
         return [ev]
     curses, curtsies = _tables()
     if "names" in inp:
